@@ -984,7 +984,7 @@ func c07OnExec(w *c04World, qn, id int, pre, now []c04Snap, run *c04Running) {
 }
 
 func runC07(r *Run) {
-	r.Rule = "queue layouts of 1..10 tasks in the task's queue (+0..2 in a second queue) over 3 hooks x 3 task types x metadata-less tasks x contexts (0..3 per task, unique binding names, groups {\"\",g1,g2} interleaved) x monitor ids x allowFailure; the real combineBindingContextForHook (via verif_export_c07.go) or its exported twin is called for the head task (78%), a task in the middle, with a nil queue, with a task naming another / an absent queue, for a task that is in no queue and names none (what the admission and conversion handlers run; the queue pointer is then GetByName of its empty name, as in taskHandleHookRun; oracle untouched: nothing merged, no queue changed); stop predicate nil / allowFailure-differs / id set; in 55% of the calls 1..3 tasks are appended to the queues by a second goroutine while the combiner is parked between Iterate and Filter; 35% of the cases run a second call after the task's metadata was updated with the first result. Oracle lines (head-of-own-queue calls): returned contexts = Spec.compact of the concatenation in queue order, monitor ids, every queue of the set afterwards. Non-trivial: >= 2 tasks in the queue; distinct = distinct op-line sequences. Plus whole-operator startups (real taskHandleHookRun with generated hooks: grouped/ungrouped Synchronization tasks; oracle: an ungrouped Synchronization runs with its own contexts and the queue is left alone). Fourth wave: the hook number of a layout stands for one of 10 tables of names that look equal (letter case only, prefix of each other, trailing characters, unicode case pairs, path spellings); queued non-head tasks are probes that report every GetId/GetType/GetMetadata the combiner makes: in 15% of the head calls one task is appended by another goroutine started from inside the k-th such access (k random), so the append lands wherever the combiner reads tasks without the queue lock (and waits where it holds it). Whole-operator cases with events (40 quick / 300 thorough): 2..3 bash hooks whose file names look equal, mostly in one queue, loaded by the real loader, each with 2..3 schedule and 0..2 kubernetes bindings in one of the group layouts schedule-only / kubernetes-only / mixed / two groups / none; layouts of 2..7 tasks are built by the real schedule / kubernetes controllers and the events handler while a run is blocked, 45% of the runs fail (up to twice per task) and are retried, more tasks arrive during runs and back-offs. Oracle `merged` on EVERY execution (first attempt and retries): what the hook found in its context file = Spec.compact of the concatenation in queue order of the contexts, as the hook configuration declares them, of the head, of everything merged into it by earlier attempts and of the following run of the same hook/type; exactly that run left the queue. Sixth wave: in 60% of the event-and-retry operator cases most hooks ALSO have 1..2 webhook bindings (kubernetesCustomResourceConversion / kubernetesValidating / kubernetesMutating, 30% of them with the `group:` the other bindings use); up to 4 requests per case are answered out of band through the real routers (chi, httptest) of the operator's admission and conversion WebhookHandlers -> the event closure of initValidatingWebhookManager / conversionEventHandler -> HookManager -> taskHandler -> taskHandleHookRun -> bash, mostly for the hook whose task is at the head of the driven queue, while that head task is blocked in its run (its followers queued behind it) or sleeps in its back-off after a failed run (back-off 600..900 ms; inconclusive when the answer did not arrive before the back-off could end). Oracle `webhook` per request: the hook found exactly the context of its request in its context file (rendered with its own type, never Group) and every queue of the set holds the same tasks in the same places while that hook runs and after it has finished as before the request - tasks leave a queue only by being merged into its executed head. Thorough adds every layout of a head (3 groups) with <= 4 followers over 6 follower kinds, with and without a concurrent append."
+	r.Rule = "queue layouts of 1..10 tasks in the task's queue (+0..2 in a second queue) over 3 hooks x 3 task types x metadata-less tasks x contexts (0..3 per task, unique binding names, groups {\"\",g1,g2} interleaved) x monitor ids x allowFailure; the real combineBindingContextForHook (via verif_export_c07.go) or its exported twin is called for the head task (78%), a task in the middle, with a nil queue, with a task naming another / an absent queue, for a task that is in no queue and names none (what the admission and conversion handlers run; the queue pointer is then GetByName of its empty name, as in taskHandleHookRun; oracle untouched: nothing merged, no queue changed); stop predicate nil / allowFailure-differs / id set; in 55% of the calls 1..3 tasks are appended to the queues by a second goroutine while the combiner is parked between Iterate and Filter; 35% of the cases run a second call after the task's metadata was updated with the first result. Oracle lines (head-of-own-queue calls): returned contexts = Spec.compact of the concatenation in queue order, monitor ids, every queue of the set afterwards. Non-trivial: >= 2 tasks in the queue; distinct = distinct op-line sequences. Plus whole-operator startups (real taskHandleHookRun with generated hooks: grouped/ungrouped Synchronization tasks; oracle: an ungrouped Synchronization runs with its own contexts and the queue is left alone). Fourth wave: the hook number of a layout stands for one of 10 tables of names that look equal (letter case only, prefix of each other, trailing characters, unicode case pairs, path spellings); queued non-head tasks are probes that report every GetId/GetType/GetMetadata the combiner makes: in 15% of the head calls one task is appended by another goroutine started from inside the k-th such access (k random), so the append lands wherever the combiner reads tasks without the queue lock (and waits where it holds it). Whole-operator cases with events (40 quick / 300 thorough): 2..3 bash hooks whose file names look equal, mostly in one queue, loaded by the real loader, each with 2..3 schedule and 0..2 kubernetes bindings in one of the group layouts schedule-only / kubernetes-only / mixed / two groups / none; layouts of 2..7 tasks are built by the real schedule / kubernetes controllers and the events handler while a run is blocked, 45% of the runs fail (up to twice per task) and are retried, more tasks arrive during runs and back-offs. Oracle `merged` on EVERY execution (first attempt and retries): what the hook found in its context file = Spec.compact of the concatenation in queue order of the contexts, as the hook configuration declares them, of the head, of everything merged into it by earlier attempts and of the following run of the same hook/type; exactly that run left the queue. Sixth wave: in 60% of the event-and-retry operator cases most hooks ALSO have 1..2 webhook bindings (kubernetesCustomResourceConversion / kubernetesValidating / kubernetesMutating, 30% of them with the `group:` the other bindings use); up to 4 requests per case are answered out of band through the real routers (chi, httptest) of the operator's admission and conversion WebhookHandlers -> the event closure of initValidatingWebhookManager / conversionEventHandler -> HookManager -> taskHandler -> taskHandleHookRun -> bash, mostly for the hook whose task is at the head of the driven queue, while that head task is blocked in its run (its followers queued behind it) or sleeps in its back-off after a failed run (back-off 600..900 ms; inconclusive when the answer did not arrive before the back-off could end). Oracle `webhook` per request: the hook found exactly the context of its request in its context file (rendered with its own type, never Group) and every queue of the set holds the same tasks in the same places while that hook runs and after it has finished as before the request - tasks leave a queue only by being merged into its executed head. A third of the failing runs of these cases (head not allowFailure) do not fail in the hook process: the hook ends well and the storage of hook metrics (public interface field of the operator, wrapped) panics once in the SendBatch that follows every hook run, i.e. after combination and run; the queue handler of the world reports the escaping panic to the worker as a failed run, the task is retried and the retry is judged by oracle merged like every attempt. Corpus: 5 (webhook requests while the head of main runs / waits), 6 (handler panic after combined runs), 7 (a task merged by a failing retry, third attempt judged). Thorough adds every layout of a head (3 groups) with <= 4 followers over 6 follower kinds, with and without a concurrent append."
 	// corpus
 	r.One(0, func(c *Case, _ *Rng) {
 		c.Desc = "corpus: interleaved groups, monitor ids, a foreign hook in the middle, concurrent append"
